@@ -1,6 +1,9 @@
 package batchproc
 
 import (
+	"os"
+	"runtime"
+
 	"pgregory.net/rapid"
 )
 
@@ -24,7 +27,15 @@ type Profile struct {
 	DelayedConsume int
 	MaxReqs        int
 	Concurrent     bool // consume steps may issue several requests at once
+	// FailKinds: failing exports may return context errors of the downstream
+	// side or permanent errors instead of an ordinary error
+	FailKinds bool
 }
+
+// fullChannel reports whether this process generates scenarios with more
+// outstanding calls than the shard's input channel holds (the driver pins such
+// a process to a few CPUs: the channel has runtime.NumCPU() slots).
+func fullChannel() bool { return os.Getenv("VERIF_FULL_CHANNEL") != "" }
 
 // pct is an unbiased percentage draw (rapid's integer generators favour small
 // values, so IntRange(0,99) < p is not a p% event).
@@ -128,6 +139,12 @@ func GenScenario(t *rapid.T, p Profile) *Scenario {
 		conc = []int{0}
 	}
 	sc.Cfg.MaxConc = rapid.SampledFrom(conc).Draw(t, "conc")
+	if fullChannel() {
+		// callers can only pile up behind a shard that is stalled, i.e. one
+		// waiting for an export slot
+		sc.Chan = runtime.NumCPU()
+		sc.Cfg.MaxConc = rapid.SampledFrom([]int{1, 1, 2}).Draw(t, "fullconc")
+	}
 	sc.Cfg.Early = pct(t, "early", p.EarlyPct)
 	meta := p.Meta || (p.MetaPct > 0 && pct(t, "meta", p.MetaPct))
 	if meta {
@@ -138,6 +155,9 @@ func GenScenario(t *rapid.T, p Profile) *Scenario {
 		}
 	}
 	sc.Gated = pct(t, "gated", p.Gated)
+	if fullChannel() && pct(t, "fullgated", 85) {
+		sc.Gated = true
+	}
 	if sc.Gated {
 		sc.HonourCancel = pct(t, "honour", p.HonourCancel)
 	}
@@ -147,6 +167,9 @@ func GenScenario(t *rapid.T, p Profile) *Scenario {
 		maxReqs = 8
 	}
 	nreq := rapid.IntRange(1, maxReqs).Draw(t, "nreq")
+	if fullChannel() {
+		nreq = rapid.IntRange(sc.Chan+3, sc.Chan+8).Draw(t, "fullnreq")
+	}
 	nextCtx := 0
 	for i := 0; i < nreq; i++ {
 		r := Request{Shape: genShape(t, sc.Signal)}
@@ -177,6 +200,9 @@ func GenScenario(t *rapid.T, p Profile) *Scenario {
 		for i := 0; i < n; i++ {
 			sc.AutoFail = append(sc.AutoFail, rapid.IntRange(0, 8).Draw(t, "autofail"))
 		}
+		if p.FailKinds && n > 0 && pct(t, "autofailkind", 30) {
+			sc.AutoFailKind = rapid.IntRange(1, 3).Draw(t, "autofailkindv")
+		}
 	}
 	// steps
 	next := 0
@@ -202,7 +228,11 @@ func GenScenario(t *rapid.T, p Profile) *Scenario {
 		case kind <= 5:
 			sc.Steps = append(sc.Steps, Step{Kind: StepAdvance, D: rapid.SampledFrom(advances).Draw(t, "advance")})
 		case kind <= 7 && sc.Gated:
-			sc.Steps = append(sc.Steps, Step{Kind: StepComplete, Export: rapid.IntRange(0, 2).Draw(t, "which"), Fail: rapid.IntRange(0, 2).Draw(t, "fail") == 0})
+			st := Step{Kind: StepComplete, Export: rapid.IntRange(0, 2).Draw(t, "which"), Fail: rapid.IntRange(0, 2).Draw(t, "fail") == 0}
+			if st.Fail && p.FailKinds && pct(t, "failkind", 30) {
+				st.FailKind = rapid.IntRange(1, 3).Draw(t, "failkindv")
+			}
+			sc.Steps = append(sc.Steps, st)
 		case kind == 8 && p.Cancels && nextCtx > 0:
 			sc.Steps = append(sc.Steps, Step{Kind: StepCancel, Ctx: rapid.IntRange(0, nextCtx-1).Draw(t, "cancelctx")})
 		case kind == 9 && p.Shutdown && !shutdown && rapid.IntRange(0, 2).Draw(t, "doshutdown") == 0:
